@@ -37,6 +37,7 @@ type c20Item struct {
 }
 
 type c20Query struct {
+	Grid   bool      `json:"grid,omitempty"`  // FROM g: the rows of t, two to an inner array (rows that are arrays themselves)
 	Twice  bool      `json:"twice,omitempty"` // Exec is called a second time on the same Query
 	Items  []c20Item `json:"items"`
 	WhereK int       `json:"where_k"` // -1 none; else  a >= WhereK
@@ -185,6 +186,7 @@ func genC20(t *rapid.T) *Bundle {
 	for qi := 0; qi < nq; qi++ {
 		q := c20Query{WhereK: -1}
 		q.Dual = rapid.IntRange(0, 5).Draw(t, "dual") == 0
+		q.Grid = !q.Dual && rapid.IntRange(0, 5).Draw(t, "grid") == 0
 		if !q.Dual && rapid.IntRange(0, 2).Draw(t, "has_where") == 0 {
 			q.WhereK = rapid.IntRange(0, 4).Draw(t, "where_k") * 10
 		}
@@ -286,7 +288,7 @@ func genC20(t *rapid.T) *Bundle {
 		if q.Dual {
 			q.SQL += "dual"
 		} else {
-			q.SQL += "t"
+			q.SQL += map[bool]string{false: "t", true: "g"}[q.Grid]
 			if q.WhereK >= 0 {
 				q.SQL += fmt.Sprintf(" WHERE a >= %d", q.WhereK)
 			}
@@ -390,6 +392,22 @@ func genC20(t *rapid.T) *Bundle {
 			for _, d := range deferred {
 				d()
 			}
+			if q.Grid {
+				// the result has the nesting of the source
+				nested := []any{}
+				k := 0
+				for i := 0; i < len(src); i += 2 {
+					inner := []any{}
+					for j := i; j < i+2 && j < len(src); j++ {
+						if q.WhereK < 0 || src[j].(map[string]any)["a"].(float64) >= float64(q.WhereK) {
+							inner = append(inner, rows[k])
+							k++
+						}
+					}
+					nested = append(nested, inner)
+				}
+				rows = nested
+			}
 		}
 		if !q.Twice {
 			rows1 = rows
@@ -409,7 +427,7 @@ func genC20(t *rapid.T) *Bundle {
 		ops = append(ops, casefmt.Op{Doc: 0, Vars: 0, Query: q.SQL, ExecTwice: q.Twice})
 	}
 	sim := drawSim(t, "")
-	c := casefmt.Case{Prop: "C20", Sim: sim, Docs: []json.RawMessage{rawDoc(map[string]any{"t": table})}, Vars: []map[string]any{init},
+	c := casefmt.Case{Prop: "C20", Sim: sim, Docs: []json.RawMessage{rawDoc(map[string]any{"t": table, "g": c20Grid(table)})}, Vars: []map[string]any{init},
 		Clients: []casefmt.Client{{Name: "client0", Ops: ops}}}
 	c.Stubs.Lat = drawLatencies(t, sites, 5)
 	tags := []string{}
@@ -420,6 +438,18 @@ func genC20(t *rapid.T) *Bundle {
 		tags = append(tags, "var_corunner")
 	}
 	return &Bundle{Prop: "C20", Kind: "history", Case: c, Expect: mustJSON(exp), Tags: tags}
+}
+
+func c20Grid(table []any) []any {
+	g := []any{}
+	for i := 0; i < len(table); i += 2 {
+		end := i + 2
+		if end > len(table) {
+			end = len(table)
+		}
+		g = append(g, append([]any{}, table[i:end]...))
+	}
+	return g
 }
 
 func evalC20(b *Bundle, r *Runner) []*Violation {
